@@ -1001,7 +1001,35 @@ func searchC08() {
 			rowDays++
 		}
 	}
-	st := map[string]int{"methods": len(w.methods), "moments": moments, "deep_moments": deepMoments, "objects": w.objects, "calls": w.calls, "row_sweep_days": rowDays}
+	// directed: fortune objects of births in October 1560..1582 — their start moment (birth + years + months + days + hours) can land
+	// in October 1582, whose days 5..14 do not exist; and of 29 February births (start in a non-leap year)
+	gapBirths := 0
+	for y := 1560 + shardI; y <= 1582; y += shardN {
+		for d := 1; d <= 20; d++ {
+			if !validYmd(y, 10, d) {
+				continue
+			}
+			dd := d
+			w.in = dqYmdHms(y, 10, dd, hms{12, 0, 0})
+			w.try("yun-start-in-october-1582", func() {
+				l := sol(y, 10, dd, 12, 0, 0).GetLunar()
+				w.yunTree(l, 1, 0)
+				w.yunTree(l, 2, 1)
+			})
+			gapBirths++
+		}
+	}
+	for y := 1904 + 4*shardI; y <= 2024; y += 4 * shardN {
+		yy := y
+		w.in = dqYmdHms(yy, 2, 29, hms{12, 0, 0})
+		w.try("yun-leap-day-birth", func() {
+			l := sol(yy, 2, 29, 12, 0, 0).GetLunar()
+			w.yunTree(l, 1, 0)
+			w.yunTree(l, 2, 1)
+		})
+		gapBirths++
+	}
+	st := map[string]int{"methods": len(w.methods), "moments": moments, "deep_moments": deepMoments, "objects": w.objects, "calls": w.calls, "row_sweep_days": rowDays, "directed_fortune_births": gapBirths}
 	types := map[string]bool{}
 	for k := range w.methods {
 		types[k[:strings.Index(k, ".")]] = true
